@@ -46,6 +46,8 @@ func propC06(c *Ctx, r *Report) {
 	r.Clauses = append(r.Clauses, "step at the edge (E43): the constant folder's closure for step(edge, x) answers 1.0 when its two parameters are equal")
 	c.runFoldStep(r, "fold.step", inPkgs("wgsl", "ir"))
 	r.floor("fold.step", 1)
+	r.Clauses = append(r.Clauses, sharedAddrClause)
+	c.runSharedAddr(r, "ptr.sharedaddr", inPkgs("wgsl", "ir"))
 	r.Clauses = append(r.Clauses, "constant indexing (E43): a folder of AccessIndex that takes the index-th entry of a constructor flattened to scalars first establishes that the base is a vector")
 	c.runFoldFlatIndex(r, "fold.flatindex", "wgsl/internal/lower")
 	r.floor("fold.flatindex", 1)
@@ -94,6 +96,9 @@ func propC08(c *Ctx, r *Report) {
 	r.Clauses = append(r.Clauses, "explicit dereference (E75): where the lowerer takes a pointer from an explicit `*p` and asks the load rule for the pointee, it handles the rule leaving a pointer value unloaded")
 	c.runDerefLoadRule(r, "deref.loadrule", "wgsl/internal/lower")
 	r.floor("deref.loadrule", 1)
+	r.Clauses = append(r.Clauses, splitRemainderClause)
+	c.runSplitRemainder(r, "lex.splitremainder", "wgsl/internal/parser")
+	r.floor("lex.splitremainder", 4)
 	r.Clauses = append(r.Clauses, userShadowClause, innerFirstClause)
 	c.runUserShadow(r, "call.usershadow", "wgsl/internal/lower")
 	r.floor("call.usershadow", 1)
@@ -130,3 +135,5 @@ func propC08(c *Ctx, r *Report) {
 const userShadowClause = "declared functions shadow built-ins (E67): the lowerer's call dispatcher looks the callee up among the functions the program declares before the first test that recognises the name as a built-in"
 
 const innerFirstClause = "innermost declaration first (E68): a function that looks one name up both in a function-scope table (a string-keyed map field cleared at the start of every function) and in a module-scope table consults the function-scope table first"
+
+const sharedAddrClause = "one cell, one pointer (E84): a local variable of a handle type whose address is taken at two sites of a function is not assigned between the two sites - optional operands (*ExpressionHandle) built from one reused temporary all see its last value (expected count on the pinned tree: 0; positive control: seed C06-g)"
